@@ -303,6 +303,7 @@ proof fn lemma_be_final_step(v: Seq<f64>, n: int, i: int, ents: Seq<BedEntry>, n
 //   `for val in v.iter_mut() {` -> index loop `let n__ = v.len(); for i__2 in 0..n__ { let val = v.index_mut(i__2);`
 //   `X as f64` (f32 -> f64 widening) -> `f64_of_f32(X)`;  `f64::NAN` -> `fconst_f64_nan()` (R12c)
 //@extract fn pybigtools/src/lib.rs to_array
+//@rule R16
 //@rule R6
 //@rule R12c
 //@sub /<I: Iterator<Item = Result<\w+, _BBIReadError>>>/ => "" min=1
@@ -436,6 +437,7 @@ proof fn lemma_be_final_step(v: Seq<f64>, n: int, i: int, ents: Seq<BedEntry>, n
 // `end`; the filler has to clamp it to the requested range.  `be/cell_range_is_the_entry_clamped_to_the_request`
 // states exactly that about the two bounds the code computes.
 //@extract fn pybigtools/src/lib.rs to_entry_array
+//@rule R16
 //@rule R6
 //@rule R12c
 //@sub /<I: Iterator<Item = Result<\w+, _BBIReadError>>>/ => "" min=1
@@ -562,6 +564,7 @@ proof fn lemma_be_final_step(v: Seq<f64>, n: int, i: int, ents: Seq<BedEntry>, n
 // Substitutions: `bigtools::ChromInfo` -> `ChromInfo`; `PyResult<T>` -> `Result<T, PyErr>`; the `find` closure chain ->
 // `find_chrom(chroms, chrom_name)`; `PyErr::new::<exceptions::X, _>(format!(..))` -> `py_err_new(PyExc::X)`.
 //@extract fn pybigtools/src/lib.rs start_end_length_inner
+//@rule R16
 //@sub /bigtools::ChromInfo/ => ChromInfo min=0
 //@sub /PyResult<\(i32, i32, i32\)>/ => Result<(i32, i32, i32), PyErr> min=1
 //@sub /chroms\.into_iter\(\)\.find\(\|x\| x\.name == chrom_name\)/ => find_chrom(chroms, chrom_name) min=0
@@ -583,6 +586,7 @@ proof fn lemma_be_final_step(v: Seq<f64>, n: int, i: int, ents: Seq<BedEntry>, n
 //@end
 
 //@extract fn pybigtools/src/lib.rs bigwig_start_end_length
+//@rule R16
 //@sub /&BigWigReadRaw<R>/ => &VBbi min=1
 //@sub /<R>/ => "" min=0
 //@sub /PyResult<\(i32, i32, i32\)>/ => Result<(i32, i32, i32), PyErr> min=1
@@ -599,6 +603,7 @@ proof fn lemma_be_final_step(v: Seq<f64>, n: int, i: int, ents: Seq<BedEntry>, n
 //@end
 
 //@extract fn pybigtools/src/lib.rs bigbed_start_end_length
+//@rule R16
 //@sub /&BigBedReadRaw<R>/ => &VBbi min=1
 //@sub /<R>/ => "" min=0
 //@sub /PyResult<\(i32, i32, i32\)>/ => Result<(i32, i32, i32), PyErr> min=1
@@ -619,6 +624,7 @@ proof fn lemma_be_final_step(v: Seq<f64>, n: int, i: int, ents: Seq<BedEntry>, n
 //   `let (intervals_start, intervals_end) = (start.max(0) as u32, end.min(length) as u32);`
 // =====================================================================================
 //@extract fn pybigtools/src/lib.rs intervals_to_array
+//@rule R16
 //@presub /\A.*?\n[ \t]*(let \(intervals_start, intervals_end\) =[^;]*;).*\Z/ => fn bw_query_range(start: i32, end: i32, length: i32) -> (u32, u32) {\n    \1\n    (intervals_start, intervals_end)\n} min=1 count=1
 //@ret r
 //@sig
@@ -634,6 +640,7 @@ proof fn lemma_be_final_step(v: Seq<f64>, n: int, i: int, ents: Seq<BedEntry>, n
         start <= r.0, r.1 <= end,
 //@end
 //@extract fn pybigtools/src/lib.rs entries_to_array
+//@rule R16
 //@presub /\A.*?\n[ \t]*(let \(intervals_start, intervals_end\) =[^;]*;).*\Z/ => fn bb_query_range(start: i32, end: i32, length: i32) -> (u32, u32) {\n    \1\n    (intervals_start, intervals_end)\n} min=1 count=1
 //@ret r
 //@sig
